@@ -28,6 +28,7 @@ RULE = (
     ' Round 6: `between` also holds re-presentations of the woken node and application events (@send-req, @send-internal, @save, @reload).'
     ' Round 8: `wake_payloads` sequences; `memstream` kind (real stream objects, the link dies with an OS error while the k-th command is written).'
     ' Round 9: `mqtt` kind (broker connection lost around a wake); `reconnect=with-exc` (the error itself leaves the async-with block).'
+    ' Round 10: requests and reports for the parked key between parking and wake (enumerated).'
 )
 ASSUMPTIONS = [
     "faults are raised by the transport's write before anything is recorded (an all-or-nothing write)",
